@@ -10,11 +10,11 @@ namespace Fcp
 
 inductive Rule where
   | emptyStruct | dupField | dupEnumName | dupEnumValue | dupImpl | implNoStruct
-  | dupCanId | implTooBig | dupType | missingService
+  | dupCanId | implTooBig | dupType | missingService | serviceRpc
   deriving Repr, DecidableEq, Inhabited
 
 inductive CheckSet where
-  | general | dbc | canC
+  | general | dbc | canC | cpp
   deriving Repr, DecidableEq, Inhabited
 
 /-- first element of `xs` failing `ok`, as the loop `for node in nodes: check(node).attempt()` -/
@@ -85,7 +85,21 @@ def chkServices (S : Schema) : Except Rule Unit :=
     | none => true
     | some l => l.all fun s => (serviceNames S).contains s) .missingService S.devices
 
-/-- `Verifier.verify`: categories struct, field, enum, impl, signal_block, type, device -/
+/-- the C++ plug-in's check of one service (category `service`): what its rpc layer needs -/
+def serviceRpcOk (S : Schema) (sv : Service) : Bool :=
+  decide ((S.services.map (·.name)).count sv.name ≤ 1) &&
+  decide ((S.services.map (·.id)).count sv.id ≤ 1) &&
+  decide (0 ≤ sv.id ∧ sv.id ≤ 255) &&
+  sv.methods.all fun m =>
+    decide ((sv.methods.map (·.name)).count m.name ≤ 1) &&
+    decide ((sv.methods.map (·.id)).count m.id ≤ 1) &&
+    decide (0 ≤ m.id ∧ m.id ≤ 255) &&
+    (S.getStruct m.input).isSome && (S.getStruct m.output).isSome
+
+def chkServiceRpc (S : Schema) : Except Rule Unit :=
+  firstFail (serviceRpcOk S) .serviceRpc S.services
+
+/-- `Verifier.verify`: categories struct, field, enum, impl, signal_block, type, service, device -/
 def verifyModel (cs : CheckSet) (fuel : Nat) (S : Schema) : Except Rule Unit := do
   chkEmptyStruct S
   chkDupField S
@@ -96,7 +110,11 @@ def verifyModel (cs : CheckSet) (fuel : Nat) (S : Schema) : Except Rule Unit := 
   | .general => pure ()
   | .dbc => do chkImplStruct S; chkDupCanId S
   | .canC => do chkImplStruct S; chkImplSize S fuel
+  | .cpp => pure ()
   chkDupType S
+  match cs with
+  | .cpp => chkServiceRpc S
+  | _ => pure ()
   chkServices S
 
 /-! ## specification -/
@@ -117,6 +135,16 @@ structure DbcOk (S : Schema) : Prop where
 structure COk (S : Schema) (fuel : Nat) : Prop where
   bound : ∀ i ∈ S.impls, (S.getStruct i.type).isSome
   size : ∀ i ∈ S.impls, i.protocol = "can" → ∃ n, implBits S fuel i = some n ∧ n ≤ 64
+
+/-- what the rpc layer of the C++ generator needs from the services of a schema -/
+structure CppOk (S : Schema) : Prop where
+  names : (S.services.map (·.name)).Nodup
+  ids : (S.services.map (·.id)).Nodup
+  idRange : ∀ sv ∈ S.services, 0 ≤ sv.id ∧ sv.id ≤ 255
+  methodNames : ∀ sv ∈ S.services, (sv.methods.map (·.name)).Nodup
+  methodIds : ∀ sv ∈ S.services, (sv.methods.map (·.id)).Nodup
+  methodIdRange : ∀ sv ∈ S.services, ∀ m ∈ sv.methods, 0 ≤ m.id ∧ m.id ≤ 255
+  payloads : ∀ sv ∈ S.services, ∀ m ∈ sv.methods, (S.getStruct m.input).isSome ∧ (S.getStruct m.output).isSome
 
 /-! ## the `count > 1` idiom is `Nodup` -/
 
@@ -309,6 +337,42 @@ theorem verify_iff_c (fuel : Nat) (S : Schema) :
   · rintro ⟨a, b, c, d, e, i, k, t, sv⟩; exact ⟨⟨t, e, b, a, c, d, sv⟩, i, k⟩
   · rintro ⟨⟨t, e, b, a, c, d, sv⟩, i, k⟩; exact ⟨a, b, c, d, e, i, k, t, sv⟩
 
+theorem forall_count_map_nodup {α β : Type} [BEq β] [LawfulBEq β] (l : List α) (f : α → β) :
+    (∀ x ∈ l, (l.map f).count (f x) ≤ 1) ↔ (l.map f).Nodup := by
+  rw [← all_count_le_one_iff_nodup]
+  simp only [List.mem_map, forall_exists_index, and_imp, forall_apply_eq_imp_iff₂]
+
+theorem chkServiceRpc_ok (S : Schema) : chkServiceRpc S = .ok () ↔ CppOk S := by
+  unfold chkServiceRpc
+  rw [firstFail_ok]
+  simp only [serviceRpcOk, Bool.and_eq_true, decide_eq_true_eq, List.all_eq_true]
+  constructor
+  · intro h
+    refine ⟨?_, ?_, ?_, ?_, ?_, ?_, ?_⟩
+    · exact (forall_count_map_nodup S.services (·.name)).mp fun sv hsv => (h sv hsv).1.1.1
+    · exact (forall_count_map_nodup S.services (·.id)).mp fun sv hsv => (h sv hsv).1.1.2
+    · exact fun sv hsv => (h sv hsv).1.2
+    · exact fun sv hsv => (forall_count_map_nodup sv.methods (·.name)).mp fun m hm => ((h sv hsv).2 m hm).1.1.1.1
+    · exact fun sv hsv => (forall_count_map_nodup sv.methods (·.id)).mp fun m hm => ((h sv hsv).2 m hm).1.1.1.2
+    · exact fun sv hsv m hm => ((h sv hsv).2 m hm).1.1.2
+    · exact fun sv hsv m hm => ⟨((h sv hsv).2 m hm).1.2, ((h sv hsv).2 m hm).2⟩
+  · intro c sv hsv
+    refine ⟨⟨⟨?_, ?_⟩, c.idRange sv hsv⟩, fun m hm => ⟨⟨⟨⟨?_, ?_⟩, c.methodIdRange sv hsv m hm⟩, (c.payloads sv hsv m hm).1⟩, (c.payloads sv hsv m hm).2⟩⟩
+    · exact (forall_count_map_nodup S.services (·.name)).mpr c.names sv hsv
+    · exact (forall_count_map_nodup S.services (·.id)).mpr c.ids sv hsv
+    · exact (forall_count_map_nodup sv.methods (·.name)).mpr (c.methodNames sv hsv) m hm
+    · exact (forall_count_map_nodup sv.methods (·.id)).mpr (c.methodIds sv hsv) m hm
+
+/-- **with the C++ plug-in's check** (category `service`, added with fix 35b0f7d) -/
+theorem verify_iff_cpp (fuel : Nat) (S : Schema) :
+    verifyModel .cpp fuel S = .ok () ↔ WellFormed S ∧ CppOk S := by
+  unfold verifyModel
+  simp only [seq_ok, chkEmptyStruct_ok, chkDupField_ok, chkDupEnumName_ok, chkDupEnumValue_ok,
+    chkDupImpl_ok, chkDupType_ok, chkServices_ok, chkServiceRpc_ok, wellFormed_iff, pure_ok, true_and]
+  constructor
+  · rintro ⟨a, b, c, d, e, t, k, sv⟩; exact ⟨⟨t, e, b, a, c, d, sv⟩, k⟩
+  · rintro ⟨⟨t, e, b, a, c, d, sv⟩, k⟩; exact ⟨a, b, c, d, e, t, k, sv⟩
+
 /-! ## the verdict does not depend on declaration order -/
 
 /-- `S'` lists the same declarations as `S`, each list in some other order -/
@@ -352,6 +416,30 @@ theorem DbcOk.perm {S S' : Schema} (p : SchemaPerm S S') (d : DbcOk S) : DbcOk S
     exact ⟨st, p.structs.mem_iff.mp hst, hn⟩
   · have : (canIdKeys S).Perm (canIdKeys S') := (p.impls.filter _).map _
     exact this.nodup_iff.mp d.ids
+
+theorem getStruct_isSome_perm {S S' : Schema} (p : SchemaPerm S S') (n : String)
+    (h : (S.getStruct n).isSome) : (S'.getStruct n).isSome := by
+  rw [getStruct_isSome] at h ⊢
+  obtain ⟨st, hst, hn⟩ := h
+  exact ⟨st, p.structs.mem_iff.mp hst, hn⟩
+
+theorem CppOk.perm {S S' : Schema} (p : SchemaPerm S S') (c : CppOk S) : CppOk S' := by
+  have mem : ∀ sv, sv ∈ S'.services → sv ∈ S.services := fun sv h => p.services.mem_iff.mpr h
+  exact {
+    names := (p.services.map _).nodup_iff.mp c.names
+    ids := (p.services.map _).nodup_iff.mp c.ids
+    idRange := fun sv h => c.idRange sv (mem sv h)
+    methodNames := fun sv h => c.methodNames sv (mem sv h)
+    methodIds := fun sv h => c.methodIds sv (mem sv h)
+    methodIdRange := fun sv h => c.methodIdRange sv (mem sv h)
+    payloads := fun sv h m hm =>
+      ⟨getStruct_isSome_perm p _ (c.payloads sv (mem sv h) m hm).1, getStruct_isSome_perm p _ (c.payloads sv (mem sv h) m hm).2⟩ }
+
+/-- the verdict with the C++ plug-in's check is invariant under reordering the declarations -/
+theorem verify_perm_cpp (fuel : Nat) (S S' : Schema) (p : SchemaPerm S S') :
+    (verifyModel .cpp fuel S = .ok ()) ↔ (verifyModel .cpp fuel S' = .ok ()) := by
+  rw [verify_iff_cpp, verify_iff_cpp]
+  exact ⟨fun ⟨w, c⟩ => ⟨w.perm p, c.perm p⟩, fun ⟨w, c⟩ => ⟨w.perm p.symm, c.perm p.symm⟩⟩
 
 /-- the general verdict is invariant under reordering the declarations -/
 theorem verify_perm_general (fuel : Nat) (S S' : Schema) (p : SchemaPerm S S') :
